@@ -627,6 +627,13 @@ func (fr *c08Run) manifestFamily() string {
 		}
 	}
 	if manifestFault == "" {
+		for _, op := range fr.inj.firedOps() {
+			if op.Fd.Type == storage.TypeManifest && op.Kind == stor.OpRemove {
+				// newManifest returns the error of removing the OLD manifest after it has switched to the new one:
+				// the commit is reported as failed (edit abandoned in memory) although it is durable
+				return "session.newManifest:old-manifest-remove-failed-after-switch"
+			}
+		}
 		return ""
 	}
 	then := "revert"
@@ -665,13 +672,10 @@ func (fr *c08Run) reopenSig(err error, kind, typ string) string {
 		}
 	}
 	switch {
-	case crErrClass(err) == "missing-files" && manifestFault != "":
+	case crErrClass(err) == "missing-files" && fr.manifestFamily() != "":
 		// the edit was abandoned in memory but its record reached the manifest; the caller then removed the tables
-		then := "revert"
-		if commitFailed {
-			then = "discard"
-		}
-		sig = "session.commit:manifest-" + manifestFault + "-failed-then-" + then + ":open-missing-files"
+		_, _ = commitFailed, manifestFault
+		sig = fr.manifestFamily() + ":open-missing-files"
 	case setmetaEffect && strings.Contains(err.Error(), "entry point"):
 		sig = "newManifest:setmeta-failed-with-effect-then-manifest-removed:open-entry-point-missing"
 	}
@@ -711,7 +715,7 @@ func runC08(c *Ctx) {
 		c08Kinds = append(c08Kinds, stor.OpClose)
 	}
 	once := &crSigOnce{}
-	nwl := c.Scale(3, 4)
+	nwl := c.Scale(3, 10)
 	type job struct {
 		plan    *c08Plan
 		r       *rng.R
